@@ -528,6 +528,7 @@ def aggLoop (c : PCfg) (begin name : Str) (agg : Items) : Nat → PM Items
           let (agg', out) ← moduleHook c agg fuel
           match out with
           | .ok true => aggLoop c begin name agg' fuel
+          | .ok false => throw (.parse none)  -- the tokens ran out inside the open block: ParseError
           | .error .fuel => throw .fuel
           | .error (.lexer p) => throw (.lexer p)
           | .error (.parse t) => throw (.parse t)
